@@ -324,3 +324,266 @@ pub fn corpus() -> Vec<GTree> {
         doc(el(2, &[(2, 0)], &[], vec![el(3, &[], &[], vec![])])),
     ]
 }
+
+// ---------------------------------------------------------------------------------------------
+// The name types (xmlname/*.rs): how the results of `name_ref` / `full_name` are consumed.
+//
+//   scope xmlname <path> <tree>   for every name id of the vocabulary, with the node as context:
+//     <id>=!<ns string>                                   name_ref refuses (MissingPrefix)
+//     <id>=<u><d>/<local>|<ns>|<prefix>/<P>/<R>/<B>><C>><A>/<K>/<W>
+//        u  RefName::has_unprefixed_namespace            d  OwnedName::in_default_namespace   (t | f)
+//        local|ns|prefix   RefName::to_owned()
+//        P  OwnedName::parse_full_name(full_name, element-rule lookup in this node's scope):
+//           `=` (the to_owned triple again) | local|ns|prefix | !U<prefix string>
+//        R  to_owned().to_ref(scratch Xot)                <name id>:<prefix id>
+//        B  with_suffix().maybe_to_ref(scratch) before the suffixed name exists      - | <name id>:<prefix id>
+//        C  with_suffix().to_create(scratch)              <name id>
+//        A  with_suffix().maybe_to_ref(scratch) afterwards
+//        K  CreateName::parse_full_name(scratch, full_name, the same lookup by id)   <name id> | !U<prefix string>
+//        W  with_default_namespace("urn:b"): <ns string>~<in_default_namespace>
+// The scratch Xot is a fresh one with the standard vocabulary (same ids as the tree's Xot, which
+// the queries never change), one per (node, name), so every line is a function of tree and path.
+
+use xot::xmlname::{CreateName, NameStrInfo, OwnedName};
+
+pub struct XmlNameObs {
+    pub name: usize,
+    /// `Err(ns string)` = MissingPrefix
+    pub ok: Result<XmlNameOk, String>,
+}
+
+pub struct XmlNameOk {
+    pub prefix: usize,
+    pub unprefixed_ns: bool,
+    pub in_default: bool,
+    pub owned: (String, String, String),
+    pub full: String,
+    pub parsed: Result<(String, String, String), String>,
+    pub to_ref: (usize, usize),
+    pub maybe_self: Option<(usize, usize)>,
+    pub before: Option<(usize, usize)>,
+    pub created: usize,
+    pub after: Option<(usize, usize)>,
+    pub create_parsed: Result<usize, String>,
+    pub with_default: (String, bool),
+    pub suffixed_full: String,
+    /// the remaining constructors / accessors of the name types, judged on the spot
+    /// (implementation only): violated laws
+    pub constructor_laws_broken: Vec<String>,
+}
+
+fn triple(o: &OwnedName) -> (String, String, String) {
+    (o.local_name().to_string(), o.namespace().to_string(), o.prefix().to_string())
+}
+
+pub fn xmlname_obs(xot: &Xot, vocab: &Vocab, node: Node) -> Vec<XmlNameObs> {
+    (0..vocab.names.len())
+        .map(|i| {
+            let r = match xot.name_ref(vocab.name(i), node) {
+                Ok(r) => r,
+                Err(Error::MissingPrefix(s)) => return XmlNameObs { name: i, ok: Err(s) },
+                Err(e) => return XmlNameObs { name: i, ok: Err(format!("?{:?}", e)) },
+            };
+            let o = r.to_owned();
+            let full = o.full_name().to_string();
+            // the XML-Namespaces rule for an ELEMENT name in this node's scope: a prefix the Xot
+            // knows, bound here; the empty prefix without a default namespace = no namespace
+            let lookup_id = |s: &str| {
+                let pid = xot.prefix(s)?;
+                match xot.namespace_for_prefix(node, pid) {
+                    Some(ns) => Some(ns),
+                    None => if s.is_empty() { Some(xot.no_namespace()) } else { None },
+                }
+            };
+            let lookup_str = |s: &str| lookup_id(s).map(|ns| xot.namespace_str(ns).to_string());
+            let parsed = match OwnedName::parse_full_name(&full, lookup_str) {
+                Ok(o2) => Ok(triple(&o2)),
+                Err(Error::UnknownPrefix(s)) => Err(s),
+                Err(e) => Err(format!("?{:?}", e)),
+            };
+            let mut xs = Xot::new();
+            let _vs = Vocab::standard(&mut xs);
+            let pair = |r: xot::xmlname::RefName| (name_num(r.name_id()), prefix_num(r.prefix_id()));
+            let sfx = o.clone().with_suffix();
+            let before = sfx.maybe_to_ref(&xs).map(pair);
+            let to_ref = pair(o.to_ref(&mut xs));
+            let maybe_self = o.maybe_to_ref(&xs).map(pair);
+            let created = name_num(sfx.to_create(&mut xs).name_id());
+            let after = sfx.maybe_to_ref(&xs).map(pair);
+            let create_parsed = match CreateName::parse_full_name(&mut xs, &full, lookup_id) {
+                Ok(c) => Ok(name_num(c.name_id())),
+                Err(Error::UnknownPrefix(s)) => Err(s),
+                Err(e) => Err(format!("?{:?}", e)),
+            };
+            let wd = o.clone().with_default_namespace("urn:b");
+            // the other constructors (after everything the model line reports: they may intern names)
+            let mut broken: Vec<String> = vec![];
+            {
+                let (l, n, p) = triple(&o);
+                if r.namespace_id() != xot.namespace_for_name(vocab.name(i)) {
+                    broken.push("RefName::namespace_id differs from namespace_for_name".to_string());
+                }
+                if triple(&OwnedName::new(l.clone(), n.clone(), p.clone())) != (l.clone(), n.clone(), p.clone()) {
+                    broken.push("OwnedName::new does not keep its three strings".to_string());
+                }
+                if triple(&OwnedName::name(&l)) != (l.clone(), String::new(), String::new()) {
+                    broken.push("OwnedName::name is not (local, no namespace, no prefix)".to_string());
+                }
+                // namespaced: the prefix comes from the lookup, here prefix_for_namespace in this scope
+                let by_ns = |uri: &str| xot.namespace(uri).and_then(|ns| xot.prefix_for_namespace(node, ns)).map(|p| xot.prefix_str(p).to_string());
+                match (OwnedName::namespaced(l.clone(), n.clone(), by_ns), by_ns(&n)) {
+                    (Ok(o3), Some(pfx)) if triple(&o3) == (l.clone(), n.clone(), pfx.clone()) => {}
+                    (Err(Error::MissingPrefix(u)), None) if u == n => {}
+                    (got, want) => broken.push(format!("OwnedName::namespaced: {:?} with lookup result {:?}", got.map(|o| triple(&o)), want)),
+                }
+                match (OwnedName::prefixed(&p, &l, lookup_str), lookup_str(&p)) {
+                    (Ok(o3), Some(uri)) if triple(&o3) == (l.clone(), uri.clone(), p.clone()) => {}
+                    (Err(Error::UnknownPrefix(u)), None) if u == p => {}
+                    (got, want) => broken.push(format!("OwnedName::prefixed: {:?} with lookup result {:?}", got.map(|o| triple(&o)), want)),
+                }
+                let ns_id = xs.namespace(&n).expect("standard vocabulary");
+                let cns = xot::xmlname::CreateNamespace::new(&mut xs, &p, &n);
+                if name_num(CreateName::namespaced(&mut xs, &l, &cns).name_id()) != i {
+                    broken.push("CreateName::namespaced(local, CreateNamespace::new(prefix, namespace)) is not the name".to_string());
+                }
+                match CreateName::prefixed(&mut xs, &p, &l, |_| Some(ns_id)) {
+                    Ok(c) if name_num(c.name_id()) == i => {}
+                    other => broken.push(format!("CreateName::prefixed with the name's namespace: {:?}", other.map(|c| name_num(c.name_id())))),
+                }
+                match CreateName::prefixed(&mut xs, &p, &l, |_| None) {
+                    Err(Error::UnknownPrefix(u)) if u == p => {}
+                    other => broken.push(format!("CreateName::prefixed with a failing lookup: {:?}", other.map(|c| name_num(c.name_id())))),
+                }
+                let plain = CreateName::name(&mut xs, &l).name_id();
+                if xs.local_name_str(plain) != l || xs.namespace_for_name(plain) != xs.no_namespace() {
+                    broken.push("CreateName::name is not the local name in no namespace".to_string());
+                }
+            }
+            XmlNameObs {
+                name: i,
+                ok: Ok(XmlNameOk {
+                    prefix: prefix_num(r.prefix_id()),
+                    unprefixed_ns: r.has_unprefixed_namespace(),
+                    in_default: o.in_default_namespace(),
+                    owned: triple(&o),
+                    full,
+                    parsed,
+                    to_ref,
+                    maybe_self,
+                    before,
+                    created,
+                    after,
+                    create_parsed,
+                    with_default: (wd.namespace().to_string(), wd.in_default_namespace()),
+                    suffixed_full: sfx.full_name().to_string(),
+                    constructor_laws_broken: broken,
+                }),
+            }
+        })
+        .collect()
+}
+
+pub fn xmlname_wire(obs: &[XmlNameObs]) -> String {
+    use crate::common::enc;
+    let tf = |b: bool| if b { "t" } else { "f" };
+    let tr = |t: &(String, String, String)| format!("{}|{}|{}", enc(&t.0), enc(&t.1), enc(&t.2));
+    let pr = |o: &Option<(usize, usize)>| o.map(|(n, p)| format!("{}:{}", n, p)).unwrap_or_else(|| "-".to_string());
+    let items: Vec<String> = obs
+        .iter()
+        .map(|x| match &x.ok {
+            Err(ns) => format!("{}=!{}", x.name, enc(ns)),
+            Ok(k) => {
+                let parsed = match &k.parsed {
+                    Ok(t) if *t == k.owned => "=".to_string(),
+                    Ok(t) => tr(t),
+                    Err(s) => format!("!U{}", enc(s)),
+                };
+                let cp = match &k.create_parsed {
+                    Ok(n) => n.to_string(),
+                    Err(s) => format!("!U{}", enc(s)),
+                };
+                format!(
+                    "{}={}{}/{}/{}/{}:{}/{}>{}>{}/{}/{}~{}",
+                    x.name, tf(k.unprefixed_ns), tf(k.in_default), tr(&k.owned), parsed, k.to_ref.0, k.to_ref.1,
+                    pr(&k.before), k.created, pr(&k.after), cp, enc(&k.with_default.0), tf(k.with_default.1)
+                )
+            }
+        })
+        .collect();
+    if items.is_empty() { "ok -".to_string() } else { format!("ok {}", items.join(",")) }
+}
+
+/// The laws of the name types, on the implementation: round trips and `parse_full_name` as the
+/// inverse of `full_name` in the scope that produced it.
+pub fn check_xmlnames(sink: &mut Sink, xot: &Xot, vocab: &Vocab, t: &GTree, path: &[usize], node: Node, scope: &Scope, obs: &[XmlNameObs]) {
+    let n_names = vocab.names.len();
+    let default_ns = scope.get(&0).copied().unwrap_or(0);
+    for x in obs {
+        let name = x.name;
+        let ns = ns_of_name(vocab, name);
+        let k = match &x.ok {
+            Err(_) => {
+                sink.stat("xmlname.name_ref-refused");
+                continue;
+            }
+            Ok(k) => k,
+        };
+        sink.stat("xmlname.name_ref-ok");
+        let local = &vocab.names[name].0;
+        let want_owned = (local.clone(), vocab.namespaces[ns].0.clone(), vocab.prefixes[k.prefix].0.clone());
+        if k.owned != want_owned {
+            fail(sink, "C09", "C09:to_owned-differs-from-the-strings-of-the-ids", &format!("name {}: to_owned {:?}, the ids say {:?}", name, k.owned, want_owned), t, path, "xmlname");
+        }
+        match xot.full_name(node, vocab.name(name)) {
+            Ok(s) if s == k.full => {}
+            other => fail(sink, "C09", "C09:owned-full_name-differs-from-full_name", &format!("name {}: to_owned().full_name() = {:?}, full_name = {:?}", name, k.full, other.ok()), t, path, "xmlname"),
+        }
+        if k.unprefixed_ns != (ns != 0 && k.prefix == 0) || k.in_default != k.unprefixed_ns {
+            fail(sink, "C09", "C09:has_unprefixed_namespace-or-in_default_namespace-wrong", &format!("name {} (namespace {}, prefix {}): has_unprefixed_namespace {}, in_default_namespace {}", name, ns, k.prefix, k.unprefixed_ns, k.in_default), t, path, "xmlname");
+        }
+        sink.stat(if k.unprefixed_ns { "xmlname.has_unprefixed_namespace.true" } else { "xmlname.has_unprefixed_namespace.false" });
+        // to_owned / to_ref / maybe_to_ref round trip (a second Xot with the same registrations)
+        if k.to_ref != (name, k.prefix) || k.maybe_self != Some((name, k.prefix)) {
+            fail(sink, "C09", "C09:to_owned-to_ref-round-trip-differs", &format!("name {} prefix {}: to_ref {:?}, maybe_to_ref {:?}", name, k.prefix, k.to_ref, k.maybe_self), t, path, "xmlname");
+        } else {
+            sink.stat("xmlname.round-trip.to_owned-to_ref");
+        }
+        // with_suffix: a new name in the same namespace, unknown before, known after to_create
+        if k.before.is_some() || k.created != n_names || k.after != Some((n_names, k.prefix)) || k.suffixed_full != format!("{}*", k.full) {
+            fail(sink, "C09", "C09:with_suffix-to_create-round-trip-differs", &format!("name {}: maybe_to_ref before {:?}, to_create {}, after {:?}, full name {:?}", name, k.before, k.created, k.after, k.suffixed_full), t, path, "xmlname");
+        } else {
+            sink.stat("xmlname.round-trip.with_suffix-to_create");
+        }
+        for b in &k.constructor_laws_broken {
+            fail(sink, "C09", "C09:name-type-constructor-law-broken", &format!("name {}: {}", name, b), t, path, "xmlname");
+        }
+        if k.constructor_laws_broken.is_empty() {
+            sink.stat("xmlname.constructors.new-name-namespaced-prefixed-ok");
+        }
+        // with_default_namespace only touches an unprefixed no-namespace name
+        let want_wd = if k.owned.1.is_empty() && k.owned.2.is_empty() { ("urn:b".to_string(), true) } else { (k.owned.1.clone(), k.in_default) };
+        if k.with_default != want_wd {
+            fail(sink, "C09", "C09:with_default_namespace-wrong", &format!("name {}: {:?}, expected {:?}", name, k.with_default, want_wd), t, path, "xmlname");
+        }
+        sink.stat(if k.owned.1.is_empty() && k.owned.2.is_empty() { "xmlname.with_default_namespace.applies" } else { "xmlname.with_default_namespace.keeps" });
+        // parse_full_name inverts full_name where the element rule resolves the written prefix to
+        // the name's namespace: always through a non-empty prefix; unprefixed when the default
+        // namespace in scope (or its absence) is the name's namespace
+        let invertible = k.prefix != 0 || default_ns == ns;
+        if invertible {
+            if k.parsed.as_ref().ok() != Some(&k.owned) || k.create_parsed != Ok(name) {
+                fail(sink, "C09", "C09:parse_full_name-not-inverse-of-full_name", &format!("name {} written {:?}: OwnedName::parse_full_name {:?}, CreateName::parse_full_name {:?}", name, k.full, k.parsed, k.create_parsed), t, path, "xmlname");
+            } else {
+                sink.stat(if k.prefix != 0 { "xmlname.parse_full_name.inverse.prefixed" } else { "xmlname.parse_full_name.inverse.unprefixed" });
+            }
+        } else {
+            // an unprefixed attribute-style name under a default namespace: the element rule reads
+            // it into the default namespace (documented limit of the inverse)
+            sink.stat("xmlname.parse_full_name.unprefixed-under-other-default");
+            let want = (local.clone(), vocab.namespaces[default_ns].0.clone(), String::new());
+            if k.parsed.as_ref().ok() != Some(&want) {
+                fail(sink, "C09", "C09:parse_full_name-ignores-default-namespace", &format!("name {} written {:?}: parsed {:?}, expected {:?}", name, k.full, k.parsed, want), t, path, "xmlname");
+            }
+        }
+    }
+}
